@@ -111,7 +111,9 @@ def acks_in(vc, sent):
 
 @contract("HSTRPDatagramProtocol.datagram_received", "okdmr.dmrlib.protocols.hytera.hstrp_datagram_protocol:HSTRPDatagramProtocol.datagram_received", ["C17"],
           stubs=["HSTRP.from_bytes"])
-def one_datagram(vc, handler, kind, payload, radio, opcode, exc="AssertionError"):
+def one_datagram(vc, handler, kind, payload, radio, opcode, exc="AssertionError", own="absent", others="Online"):
+    """own / others: what the registry holds for the acting radio / the other radio before the datagram (absent, Online,
+    Offline) - any registry the invariant allows, so that the per-datagram clauses carry over any history"""
     cls = RRSDatagramProtocol if handler == "rrs" else HSTRPDatagramProtocol
     h = cls(port=3002)
     tr = Transport()
@@ -123,8 +125,13 @@ def one_datagram(vc, handler, kind, payload, radio, opcode, exc="AssertionError"
     vc.assume(sn0 < 0xFFFF)
     h.sn = sn0
     other = "B" if radio == "A" else "A"
+    pre_reg = {}
     if handler == "rrs":
-        h.registry = {str(RadioIP(radio_id=RADIOS[other])): RRSRadioState.Online}
+        if others != "absent":
+            pre_reg[str(RadioIP(radio_id=RADIOS[other]))] = RRSRadioState[others]
+        if own != "absent":
+            pre_reg[str(RadioIP(radio_id=RADIOS[radio]))] = RRSRadioState[own]
+        h.registry = dict(pre_reg)
     addr = ("192.168.1.7", 30001)
     data = b"datagram"
     if kind == "hstrp":
@@ -193,7 +200,7 @@ def one_datagram(vc, handler, kind, payload, radio, opcode, exc="AssertionError"
     # registry and RRS answers
     if handler == "rrs":
         key_other = str(RadioIP(radio_id=RADIOS[other]))
-        vc.prove("other_radio_entry_untouched", h.registry.get(key_other) is RRSRadioState.Online)
+        vc.prove("other_radio_entry_untouched", h.registry.get(key_other) is pre_reg.get(key_other))
         key = str(RadioIP(radio_id=RADIOS[radio]))
         if is_rrs_request:
             vc.prove("registration_marks_the_radio_online", h.registry.get(key) is RRSRadioState.Online)
@@ -207,7 +214,7 @@ def one_datagram(vc, handler, kind, payload, radio, opcode, exc="AssertionError"
             vc.prove("going_offline_marks_the_radio_offline", h.registry.get(key) is RRSRadioState.Offline)
             vc.prove("no_rrs_answer_without_a_registration_request", len(rrs_answers) == 0)
         else:
-            vc.prove("registry_unchanged_otherwise", key not in h.registry)
+            vc.prove("registry_unchanged_otherwise", h.registry.get(key) is pre_reg.get(key) and set(h.registry) == set(pre_reg))
             vc.prove("no_rrs_answer_without_a_registration_request", len(rrs_answers) == 0)
     else:
         vc.prove("plain_hstrp_layer_sends_only_acks_and_heartbeats", len(rrs_answers) == 0)
@@ -224,6 +231,10 @@ def _shapes(tier):
         for op in ("RadioRegistrationRequest", "RadioGoingOffline", "RegistrationStatusCheckRequest", "RadioRegistrationAnswer", "RegistrationStatusCheckAnswer"):
             for r in ("A", "B"):
                 yield dict(handler=handler, kind="hstrp", payload="rrs", radio=r, opcode=op)
+                if handler == "rrs" and (r == "A" or tier != "quick"):
+                    # the radio's last event before this datagram: none / registration / going offline
+                    for own in ("Online", "Offline"):
+                        yield dict(handler=handler, kind="hstrp", payload="rrs", radio=r, opcode=op, own=own, others="Offline" if own == "Online" else "absent")
 
 
 one_datagram.shapes = _shapes
